@@ -23,6 +23,11 @@ Ltac bridge := intros; cbv beta delta [gen_from_rows_transposes gen_from_rows_em
 (* ---------- (a) generated = model ---------- *)
 Lemma b_from_rows_transposes : gen_from_rows_transposes = m_from_rows_transposes. Proof. bridge. Qed.
 Lemma b_from_rows_empty_rule : gen_from_rows_empty_rule = m_from_rows_empty_rule. Proof. bridge. Qed.
+(* the body of from_entry_tuples mentions its Iterable argument exactly as often as the model assumes (once: no traversal
+   before the transposing zip), so a one-shot iterator is consumed by the zip and by nothing else *)
+Lemma b_from_rows_argument_uses : gen_from_rows_argument_uses = m_from_rows_argument_uses. Proof. reflexivity. Qed.
+Lemma b_from_rows_no_pre_traversal : m_from_rows_pre_traversals = Z.to_nat (gen_from_rows_argument_uses - 1) /\ m_from_rows_pre_traversals = 0%nat.
+Proof. split; reflexivity. Qed.
 Lemma b_sort_key_rule : forall is_era is_sa, gen_sort_key_rule is_era is_sa = m_sort_key_rule fix4_sort_strings is_era is_sa.
 Proof. bridge. Qed.
 Lemma b_sort_stable : gen_sort_stable = m_sort_stable. Proof. bridge. Qed.
